@@ -209,7 +209,13 @@ func verifCheckAttrTag(tag, rest string) bool {
 		case 'q':
 			good = a.quoted
 		case 'b':
-			good = a.quoted && verifByteRangeText(a.val)
+			if !verifByteRangeText(a.val) {
+				return verifBad(tag + ": attribute " + a.name + " is not a byte range n[@o]")
+			}
+			if !a.quoted {
+				return verifBad(tag + ": attribute " + a.name + " must be a quoted-string")
+			}
+			good = true
 		case 'i':
 			good = !a.quoted && verifDecimalInteger(a.val)
 		case 'f':
